@@ -7,7 +7,7 @@ use hifitime::{Duration, Epoch, TimeScale};
 
 pub fn meta() -> Meta {
     Meta {
-        rule: "events = for one reading d in a uniform scale s1: to_time_scale(s2) for all six s2 (36 ordered pairs per sample), the round trip back, to(own), commutation with + x, the named accessors (to_{tai,tt,gpst,gst,bdt,qzsst}_duration, to_duration_in_time_scale, to_duration_since_j1900), the from_*_duration constructors and TimeScale::reference_epoch. Expected: count(result) == d + zero_TAI(s1) - zero_TAI(s2) exactly with zero_TAI derived from the stated civil reference dates through M-CAL (not from the source constants); scale tag == s2. Generation: reading lattice (zero, century/day/year boundaries, leap-second instants, year 1/9999 limits) + stratified random within +-10000 y + random out to +-32000 centuries short of saturation. Non-trivial = s1 != s2, negative reading, reading beyond +-1 century, result crossing a century boundary; distinct = distinct (d, s1) hashes among those. Round 6: identity on the own scale through to_time_scale / named accessor / to_duration_in_time_scale at every count (pivot out of range included); from_tai_parts with a nanosecond field of one to five extra centuries. Rounds 7-9: readings in the first / last three centuries of the range; the six targets are asked for starting at a position that rotates with the reading.",
+        rule: "events = for one reading d in a uniform scale s1: to_time_scale(s2) for all six s2 (36 ordered pairs per sample), the round trip back, to(own), commutation with + x, the named accessors (to_{tai,tt,gpst,gst,bdt,qzsst}_duration, to_duration_in_time_scale, to_duration_since_j1900), the from_*_duration constructors and TimeScale::reference_epoch. Expected: count(result) == d + zero_TAI(s1) - zero_TAI(s2) exactly with zero_TAI derived from the stated civil reference dates through M-CAL (not from the source constants); scale tag == s2. Generation: reading lattice (zero, century/day/year boundaries, leap-second instants, year 1/9999 limits) + stratified random within +-10000 y + random out to +-32000 centuries short of saturation. Non-trivial = s1 != s2, negative reading, reading beyond +-1 century, result crossing a century boundary; distinct = distinct (d, s1) hashes among those. Round 6: identity on the own scale through to_time_scale / named accessor / to_duration_in_time_scale at every count (pivot out of range included); from_tai_parts with a nanosecond field of one to five extra centuries. Rounds 7-9: readings in the first / last three centuries of the range; the six targets are asked for starting at a position that rotates with the reading. Round 10: commutation also with the duration that lands the sum on a whole century of the target / source scale; both sides compared by parts.",
         assumptions: &["M-CAL closed-form day counts"],
         mandatory: &["conv/cross-scale", "conv/negative-reading", "conv/beyond-one-century", "conv/far-range", "ref-epoch"],
         thorough_scale: 50,
